@@ -556,6 +556,11 @@ def option_tests(nm, args, t, path):
     """Call model: Option::is_some / is_none and Result::is_ok / is_err as tests of the discriminant of the value
     (None = 0, Some = 1; Ok = 0, Err = 1), so that `x.is_some()` and a later `if let Some(..) = x` are one condition."""
     base = nm.split('::')[-1]
+    if len(args) == 1 and base in ('is_some', 'is_none', 'is_ok', 'is_err'):
+        v_ = mk_deref(args[0])
+        if v_[0] == 'agg' and v_[1] in ('std::option::Option', 'std::result::Result') and v_[2] in ('Some', 'None', 'Ok', 'Err'):
+            # the value was built on this path: the test has one answer
+            return ('const', int(v_[2] == {'is_some': 'Some', 'is_none': 'None', 'is_ok': 'Ok', 'is_err': 'Err'}[base]), 'bool')
     if len(args) == 1 and base in ('is_some', 'is_none') and nm.startswith('std::option::Option'):
         return ('bin', 'Eq', ('discr', mk_deref(args[0])), ('const', 1 if base == 'is_some' else 0, 'isize'))
     if len(args) == 1 and base in ('is_ok', 'is_err') and nm.startswith('std::result::Result'):
